@@ -25,7 +25,7 @@ P(s) == [act |-> "push", s |-> s, prot |-> << >>]
 Q(s) == [act |-> "pop", s |-> s, prot |-> << >>]
 U(prot) == [act |-> "user", s |-> "", prot |-> prot]          \* user code runs here and may raise
 
-\* object construction with one constraint block containing one if_then context manager
+\* object construction with one constraint block containing an if_then context manager and a foreach nested in its arm
 Construct ==
   <<P("srcinfo"),                                                  \* randobj_interposer.__init__
     U(IF Protected THEN <<"srcinfo">> ELSE << >>),                 \* the user's __init__
@@ -35,6 +35,9 @@ Construct ==
     U(IF Protected THEN <<"expr_l", "scope", "expr_mode", "srcinfo">> ELSE <<"expr_mode">>),   \* fo.c(self) - first statement
     P("scope"),                                                    \* with vsc.if_then(...): __enter__
     U(IF Protected THEN <<"scope", "expr_l", "scope", "expr_mode", "srcinfo">> ELSE <<"scope", "expr_mode">>),
+    P("scope"),                                                    \* with vsc.foreach(...) nested in the arm: __enter__
+    U(IF Protected THEN <<"scope", "scope", "expr_l", "scope", "expr_mode", "srcinfo">> ELSE <<"scope", "scope", "expr_mode">>),
+    Q("scope"),                                                    \* foreach.__exit__
     Q("scope"),                                                    \* if_then.__exit__
     Q("expr_l"), Q("scope"),                                       \* pop_constraint_scope drains the expressions
     Q("expr_mode"), Q("srcinfo")>>
